@@ -18,7 +18,8 @@ def tla_set(xs, strings=False):
     return "{" + ", ".join(str(x) for x in xs) + "}"
 
 
-def constants(limits=(3,), unlim=(0,), rowlens=(2,), maxbytes=30000000, as_coded=False, kinds=("ping",), maxops=1):
+def constants(limits=(3,), unlim=(0,), rowlens=(2,), maxbytes=30000000, as_coded=False, kinds=("ping",), maxops=1,
+              shard4_limit=0, shard4_rowlens=()):
     b = "TRUE" if as_coded else "FALSE"
     return """CONSTANTS
   Limits = %s
@@ -29,9 +30,12 @@ def constants(limits=(3,), unlim=(0,), rowlens=(2,), maxbytes=30000000, as_coded
   LimitInclusive = %s
   ShardIgnoresMore = %s
   LimitPerChunk = %s
+  Shard4MaxLimit = %d
+  Shard4RowLens = %s
   Kinds = %s
   MaxOps = %d
-""" % (tla_set(limits), tla_set(unlim), tla_set(rowlens), THRESHOLD, maxbytes, b, b, b, tla_set(kinds, True), maxops)
+""" % (tla_set(limits), tla_set(unlim), tla_set(rowlens), THRESHOLD, maxbytes, b, b, b, shard4_limit,
+       tla_set(shard4_rowlens), tla_set(kinds, True), maxops)
 
 
 def cfg(spec, consts, invariants=(), properties=(), post=None):
